@@ -9,6 +9,7 @@ from dlms_cosem.hdlc.state import (
     AWAITING_DISCONNECT,
     AWAITING_RESPONSE,
     NEED_DATA,
+    SEND_STATES,
     HdlcConnectionState,
 )
 
@@ -75,6 +76,20 @@ class HdlcConnection:
         :param frame: HDLC frame:
         :return: bytes
         """
+        if self.state.current_state not in SEND_STATES:
+            raise LocalProtocolError(
+                f"can't send frame type {type(frame)} when "
+                f"state={self.state.current_state}"
+            )
+
+        if isinstance(frame, frames.InformationFrame):
+            # refuse wrongly numbered frames before the state is changed.
+            self.validate_sequence_numbers(
+                frame_ssn=frame.send_sequence_number,
+                frame_rsn=frame.receive_sequence_number,
+                response=False,
+            )
+
         self.state.process_frame(frame)
 
         if isinstance(frame, frames.InformationFrame):
@@ -85,6 +100,17 @@ class HdlcConnection:
             )
 
         return frame.to_bytes()
+
+    def validate_sequence_numbers(self, frame_ssn: int, frame_rsn: int, response: bool):
+        if response:
+            expected = (self.client_ssn, self.client_rsn)
+        else:
+            expected = (self.server_ssn, self.server_rsn)
+        if (frame_ssn, frame_rsn) != expected:
+            raise LocalProtocolError(
+                f"Frame sequence numbers are wrong: frame(ssn: {frame_ssn}, rsn: "
+                f"{frame_rsn}) =! expected(ssn:{expected[0]}, rsn:{expected[1]})"
+            )
 
     def handle_sequence_numbers(self, frame_ssn: int, frame_rsn: int, response: bool):
         if not response:
@@ -146,6 +172,13 @@ class HdlcConnection:
             return NEED_DATA
 
         LOG.debug(f"Received frame: {frame}")
+        if isinstance(frame, frames.InformationFrame):
+            # refuse wrongly numbered frames before the state is changed.
+            self.validate_sequence_numbers(
+                frame_ssn=frame.send_sequence_number,
+                frame_rsn=frame.receive_sequence_number,
+                response=True,
+            )
         self.state.process_frame(frame)
         self._tidy_buffer()
 
